@@ -308,7 +308,7 @@ pub fn decode_c07(b: &[u8]) -> c03::Case {
 pub fn decode_c08(b: &[u8]) -> c08::Case {
     let mut r = R::new(b);
     let kind: Kind = ALL_KINDS[r.u8() as usize % 22];
-    let cap = if matches!(kind, Kind::Mad | Kind::Cci | Kind::Er) { 130 } else { 600 };
+    let cap = if matches!(kind, Kind::Mad | Kind::Cci | Kind::Er) { 400 } else { 600 };
     let p: Vec<usize> = (0..kind.n_periods()).map(|_| r.period_wide().min(cap)).collect();
     let m = if kind.has_mult() { r.finite() } else { 0.0 };
     let n = p.first().copied().unwrap_or(1);
@@ -327,7 +327,7 @@ pub fn decode_c08(b: &[u8]) -> c08::Case {
         2 => r.u16() as usize % 3000,
         _ => [700, 1100, 2 * n + 3, 5 * n][r.u8() as usize % 4],
     };
-    c08::Case { cfg: Cfg { kind, p, m: X(m) }, scalar, prefix, zv, level: X(level), vol: X(1.0 + r.u8() as f64), flat_len, neg_zero_mask: 0 }
+    c08::Case { cfg: Cfg { kind, p, m: X(m) }, scalar, prefix, zv, level: X(level), vol: X(1.0 + r.u8() as f64), flat_len, neg_zero_mask: 0, gen_prefix: None }
 }
 
 pub fn decode_c09(b: &[u8]) -> c09::Case {
